@@ -29,6 +29,20 @@ CHECKS = {
             'level_text': 'Unbounded proof of Quantity::{eq,partial_cmp,add,sub,div} at trait level; per-type delegation verified on the expansion.',
             'level_note': 'Trusted: as C01.'},
 }
+CHECKS.update({
+    'C04': {'engine': 'verus', 'design_ref': '5 C04', 'technique': 'deductive verification of every generated derived operator against a functional spec (Verus, vstd MulSpecImpl/DivSpecImpl)',
+            'level_text': 'Unbounded proof per generated operator impl (value and reference forms) that it equals the derived_mul/div normal form; _fit amount computation verified at trait level.',
+            'level_note': 'Trusted: as C01; unit selection functions (unit_from_scale, _fit pipeline) abstracted here and proved per type by Kani (K-ufs, K-fit).'},
+    'C05': {'engine': 'verus+kani', 'design_ref': '5 C05', 'technique': 'Verus lemmas over the derived normal form + Kani contract harnesses for unit_from_scale/_fit selection on the compiled crate',
+            'level_text': 'Unbounded proof of the natural-unit / fitted-unit / reference-unit statements over the operator normal forms; selection contracts proved per type over all f64 bit patterns.',
+            'level_note': 'Trusted: as C04; K-ufs/K-fit axioms are stated twice (Verus / Kani) under one id.'},
+    'C08': {'engine': 'verus', 'design_ref': '5 C08', 'technique': 'deductive verification of generated constructors, accessors and scalar operators (Verus)',
+            'level_text': 'Unbounded proof per generated impl for arbitrary amounts of the abstract amount type (NaN, zeros, infinities included).',
+            'level_note': 'Trusted: as C01.'},
+    'C13': {'engine': 'verus', 'design_ref': '5 C13', 'technique': 'deductive verification of Rate and the generated Rate operators (Verus)',
+            'level_text': 'Unbounded proof: generic Rate functions, Mul<PQ> for Rate and every generated Mul<Rate>/Div<Rate> impl against functional specs; reciprocal lemmas.',
+            'level_note': 'Trusted: as C01; as_qty transposed into Quantity (R1) and cross-checked by Kani.'},
+})
 NOT_APPLICABLE = {
     'C06': 'quantifies over programs the type checker must reject; a function contract cannot state that an impl does not exist (DESIGN 7)',
     'C11': 'quantifies over arbitrary proc-macro inputs (syn token trees); parse/analyze/codegen are outside Verus\' subset and not symbolically executable by CBMC (DESIGN 7)',
@@ -36,6 +50,6 @@ NOT_APPLICABLE = {
     'C15': 'thin wrappers over core::fmt and float/decimal-to-text conversion; no verifier here models core::fmt, stubbing it removes what the property states (DESIGN 7)',
     'C17': 'behaviour is that of serde_derive/serde_json/fpdec text codecs (dependencies); no repository function to put under contract (DESIGN 7)',
     'C19': 'a property of the Cargo feature lattice / cfg gates decided by cargo check per configuration, not by any contract (DESIGN 7)',
-    'C04': 'not yet built', 'C05': 'not yet built', 'C07': 'not yet built', 'C08': 'not yet built', 'C09': 'not yet built',
-    'C13': 'not yet built', 'C14': 'not yet built', 'C16': 'not yet built', 'C18': 'not yet built',
+    'C07': 'not yet built', 'C09': 'not yet built',
+    'C14': 'not yet built', 'C16': 'not yet built', 'C18': 'not yet built',
 }
